@@ -134,6 +134,28 @@ def run_shard(spec, acc):
                                "e": repr(e1 or e2)},
                               {"kind": "pair", "a": tx["raw"].hex(), "b": v.hex()})
 
+        # ... and spelling independence: the transaction and its own cleared form, both with
+        # the same compact size written the long way (fd xx 00): what is relayed for the one
+        # is what is relayed for the other
+        if i % 4 == 1 and u is not None and len(tx["ins"]) < 0xfd and not tx.get("witness"):
+            def long_way(raw, which):
+                raw = bytes(raw)
+                off = 4 if which == "input-count" else 4 + 1 + 36
+                if raw[off] >= 0xfd:
+                    return None
+                return raw[:off] + b"\xfd" + raw[off:off + 1] + b"\x00" + raw[off + 1:]
+            which = rng.choice(["input-count", "first-script-length"])
+            a_, b_ = long_way(tx["raw"], which), long_way(u, which)
+            if a_ is not None and b_ is not None:
+                o1, e1 = _call(get_unsigned_tx, a_.hex())
+                o2, e2 = _call(get_unsigned_tx, b_.hex())
+                acc.count("pairs_with_a_compact_size_written_the_long_way")
+                if (e1 is None) != (e2 is None) or (e1 is None and o1 != o2):
+                    acc.violation("depends-on-signatures:compact-size-written-the-long-way",
+                                  {"a": a_.hex()[:300], "b": b_.hex()[:300], "which": which,
+                                   "out_a": (o1 or repr(e1))[:200], "out_b": (o2 or repr(e2))[:200]},
+                                  {"kind": "pair", "a": a_.hex(), "b": b_.hex()})
+
     # robustness-only classes: witness serialisation, results still compared
     for i in range(max(4, spec["n"] // 20)):
         tx = btctx.gen_tx(rng, max_in=3, max_out=3, witness=True)
